@@ -533,7 +533,7 @@ def run(ctx):
     except Exception as e:
         gen_err = f"{type(e).__name__}: {e}"
     # C03/LIR.v (owned by the C03 worker, static) must be compiled; never force-rebuild someone else's file
-    coqrun.build_sequence(["C03/LIR.v"], force=False)
+    coqrun.build_sequence(["C03/LIR.v", "C03/VSL.v"], force=False)
     b = {"ok": False, "file": "C04/GenChecks.v", "failed_lemma": None, "out": gen_err or ""}
     if gen_err is None:
         b = ctx.coq_build(COQ_FILES)
